@@ -626,7 +626,6 @@ pub proof fn lemma_imm_bound(imm: bad64::Imm)
 }
 
 //@ fn fn operand_load
-//@ rewrite 1 `assert_eq!(reg.bits(), 128);` => `assert!(reg.bits() == 128);` ## R-assert-eq: Verus has no model of core::panicking::assert_failed; `assert!(a == b)` panics in exactly the same states (only the message differs)
 //@ spec
     requires 1 <= out_bits, out_bits as nat <= MAX_BITS(), load_pre(*opr, out_bits as nat),
     ensures
@@ -668,7 +667,6 @@ pub open spec fn store_pre(opr: bad64::Operand, value: Expression) -> bool {
 }
 
 //@ fn fn operand_store
-//@ rewrite 1 `assert_eq!(reg.bits(), 128);` => `assert!(reg.bits() == 128);` ## R-assert-eq: Verus has no model of core::panicking::assert_failed; `assert!(a == b)` panics in exactly the same states (only the message differs)
 //@ spec
     requires
         expr_wf(value), store_pre(*opr, value),
@@ -1693,6 +1691,7 @@ pub open spec fn mov_pre(ops: Seq<bad64::Operand>) -> bool {
 //@ fn fn add
 //@ attr #[verifier::spinoff_prover]
 //@ attr #[verifier::rlimit(100)]
+//@ rewrite 1 `il::Expression::add(lhs, rhs).map_err(|_| unsupported())?` => `match il::Expression::add(lhs, rhs) { Ok(vf_v) => vf_v, Err(_) => return Err(unsupported()) }` ## R-map-err: Verus rejects `_` closure parameters and un-annotated closures; `r.map_err(|_| e)?` is by definition of Result::map_err and `?` (From<UnsupportedError> for UnsupportedError is the identity) `match r { Ok(v) => v, Err(_) => return Err(e) }`: same value, same early return
 //@ spec
     requires
         old(control_flow_graph).cfg_wf(), old(control_flow_graph).next_index < usize::MAX,
@@ -1735,6 +1734,7 @@ pub open spec fn mov_pre(ops: Seq<bad64::Operand>) -> bool {
 //@ fn fn sub
 //@ attr #[verifier::spinoff_prover]
 //@ attr #[verifier::rlimit(100)]
+//@ rewrite 1 `il::Expression::sub(lhs, rhs).map_err(|_| unsupported())?` => `match il::Expression::sub(lhs, rhs) { Ok(vf_v) => vf_v, Err(_) => return Err(unsupported()) }` ## R-map-err: Verus rejects `_` closure parameters and un-annotated closures; `r.map_err(|_| e)?` is by definition of Result::map_err and `?` (From<UnsupportedError> for UnsupportedError is the identity) `match r { Ok(v) => v, Err(_) => return Err(e) }`: same value, same early return
 //@ spec
     requires
         old(control_flow_graph).cfg_wf(), old(control_flow_graph).next_index < usize::MAX,
